@@ -27,6 +27,11 @@ func buildIDAcc(ai int, spec string) (*accessory.Accessory, string) {
 	a := accessory.New(accessory.Info{Name: fmt.Sprintf("acc%d", ai), ID: eid}, accessory.TypeOther)
 	var svcs []*service.Service
 	var late [][2]int
+	for _, typ := range []string{"000000B7-0000-1000-8000-0026BB765291", "00000049-0000-1000-8000-0026BB765291", "F0000001-0000-1000-8000-0026BB765291", "B7"} {
+		if got := service.New(typ).Type; got != typ {
+			return nil, "service-constructed-with-type " + typ + " carries-type " + got
+		}
+	}
 	if len(p) > 1 && p[1] != "" {
 		for _, ss := range strings.Split(p[1], ",") {
 			name := ss
@@ -81,7 +86,15 @@ func buildIDAcc(ai int, spec string) (*accessory.Accessory, string) {
 	}
 	for _, l := range late {
 		for q := 0; q < l[1]; q++ {
-			c := characteristic.NewString(fmt.Sprintf("F00000%02d-0000-1000-8000-0026BB765291", q))
+			// a vendor type, or (every other one) a type in the long form the specification prints Apple-defined types in
+			typ := fmt.Sprintf("F00000%02d-0000-1000-8000-0026BB765291", q)
+			if q%2 == 1 {
+				typ = fmt.Sprintf("000000%02X-0000-1000-8000-0026BB765291", 0xB0+q)
+			}
+			c := characteristic.NewString(typ)
+			if c.Type != typ {
+				return nil, "constructed-with-type " + typ + " carries-type " + c.Type
+			}
 			c.Perms = []string{characteristic.PermRead}
 			svcs[l[0]].AddCharacteristic(c.Characteristic)
 		}
